@@ -58,8 +58,13 @@ def _ends(stmts: Sequence[ast.stmt]) -> bool:
     return False
 
 
-def _assign_form(stmts: List[ast.stmt], res: str) -> List[ast.stmt]:
+class _TooBig(Exception):
+    """return elimination would duplicate too many statements: the helper is left as a call"""
+
+
+def _assign_form(stmts: List[ast.stmt], res: str, budget: Optional[List[int]] = None) -> List[ast.stmt]:
     """Return elimination: the statement list computes `res` instead of returning."""
+    budget = budget if budget is not None else [400]
     out: List[ast.stmt] = []
     for i, st in enumerate(stmts):
         rest = stmts[i + 1 :]
@@ -68,24 +73,30 @@ def _assign_form(stmts: List[ast.stmt], res: str) -> List[ast.stmt]:
             out.append(ast.copy_location(ast.Assign(targets=[ast.Name(id=res, ctx=ast.Store())], value=val), st))
             return out
         if isinstance(st, ast.If) and any(isinstance(n, ast.Return) for n in ast.walk(st)):
-            body = _assign_form(list(st.body), res)
+            body = _assign_form(list(st.body), res, budget)
             if _ends(st.body) and not st.orelse:
-                orelse = _assign_form(list(rest), res)
+                orelse = _assign_form(list(rest), res, budget)
                 out.append(ast.copy_location(ast.If(test=st.test, body=body, orelse=orelse), st))
                 return out
             orelse_src = list(st.orelse)
             if _ends(st.body) and _ends(st.orelse):
-                out.append(ast.copy_location(ast.If(test=st.test, body=body, orelse=_assign_form(orelse_src, res)), st))
+                out.append(ast.copy_location(ast.If(test=st.test, body=body, orelse=_assign_form(orelse_src, res, budget)), st))
                 return out
             # one branch falls through: the rest belongs to the fall-through branch
             if _ends(st.orelse) and not _ends(st.body):
-                out.append(ast.copy_location(ast.If(test=st.test, body=_assign_form(list(st.body) + list(rest), res), orelse=_assign_form(orelse_src, res)), st))
+                out.append(ast.copy_location(ast.If(test=st.test, body=_assign_form(list(st.body) + list(rest), res, budget), orelse=_assign_form(orelse_src, res, budget)), st))
                 return out
             if _ends(st.body) and st.orelse:
-                out.append(ast.copy_location(ast.If(test=st.test, body=body, orelse=_assign_form(orelse_src + list(rest), res)), st))
+                out.append(ast.copy_location(ast.If(test=st.test, body=body, orelse=_assign_form(orelse_src + list(rest), res, budget)), st))
                 return out
-            out.append(ast.copy_location(ast.If(test=st.test, body=body, orelse=_assign_form(orelse_src, res) if orelse_src else []), st))
-            continue
+            # some path through this `if` returns and another one falls through: the statements that follow run only on the
+            # paths that fall through, so they move into both branches (appending them after the `if` would overwrite the result
+            # of the paths that returned)
+            budget[0] -= len(rest) + 1
+            if budget[0] < 0:
+                raise _TooBig()
+            out.append(ast.copy_location(ast.If(test=st.test, body=_assign_form(list(st.body) + copy.deepcopy(list(rest)), res, budget), orelse=_assign_form(orelse_src + list(rest), res, budget)), st))
+            return out
         out.append(st)
     # fell off the end: implicit None
     out.append(ast.Assign(targets=[ast.Name(id=res, ctx=ast.Store())], value=ast.Constant(value=None), lineno=getattr(stmts[-1], "lineno", 1) if stmts else 1, col_offset=0))
@@ -207,7 +218,10 @@ def expand_call(helper: ast.FunctionDef, call: ast.Call, caller_locals: Set[str]
         e = sub.visit(copy.deepcopy(ef))
         return [ast.fix_missing_locations(_relocate(s, line)) for s in prelude], ast.fix_missing_locations(_relocate(e, line))
     res = f"{helper.name.lstrip('_')}_result_{tag}"
-    stmts = [sub.visit(s) for s in _assign_form([copy.deepcopy(s) for s in body], res)]
+    try:
+        stmts = [sub.visit(s) for s in _assign_form([copy.deepcopy(s) for s in body], res)]
+    except _TooBig:
+        return None
     return [ast.fix_missing_locations(_relocate(s, line)) for s in prelude + stmts], ast.Name(id=res, ctx=ast.Load(), lineno=line, col_offset=0)
 
 
